@@ -84,9 +84,9 @@ func runCmd(dir string, timeout time.Duration, name string, args ...string) (rc 
 
 var rePanicLine = regexp.MustCompile(`(?m)^(panic: .*|fatal error: .*|\[signal .*)$`)
 
-func genOnce(self, mod string) GenRun {
-	rc, out, to := runCmd(mod, 90*time.Second, self, "c17-gen", mod, "./p")
-	gf := filepath.Join(mod, "p", "zz_generated.deepcopy.go")
+func genOnce(self, mod, base string) GenRun {
+	rc, out, to := runCmd(mod, 90*time.Second, self, "c17-gen", mod, "./p", base)
+	gf := filepath.Join(mod, "p", base+".deepcopy.go")
 	switch {
 	case to:
 		return GenRun{Status: "timeout"}
@@ -191,6 +191,15 @@ func writeModule(in *Input, mod string) error {
 			return err
 		}
 	}
+	if in.usesExt() {
+		d := filepath.Join(mod, "ext")
+		if err := os.MkdirAll(d, 0o755); err != nil {
+			return err
+		}
+		if err := os.WriteFile(filepath.Join(d, "ext.go"), []byte(extSource), 0o644); err != nil {
+			return err
+		}
+	}
 	if in.ShadowPkg != "" {
 		d := filepath.Join(mod, in.ShadowPkg)
 		if err := os.MkdirAll(d, 0o755); err != nil {
@@ -221,12 +230,15 @@ func (prop) Run(raw json.RawMessage, scratch string) core.Result {
 	// --- the real generator, three times ---
 	first := ""
 	for k := 0; k < 3; k++ {
-		g := genOnce(self, mod)
+		g := genOnce(self, mod, in.base())
+		in.aliasSpelling(g.Methods)
 		obs.Runs = append(obs.Runs, g)
-		if k == 0 && g.Status == "file" {
-			// the output of the FIRST run must compile too (later runs may overwrite it with different code)
+		// the package must compile after EVERY run: after the first one, and after a later one that left something else
+		// behind (other bytes, or no file at all) than the run before it
+		changed := k == 0 || g.Status != obs.Runs[k-1].Status || !bytes.Equal(g.src, obs.Runs[k-1].src)
+		if first == "" && changed && (g.Status == "file" || k > 0) {
 			if rc, out, to := runCmd(mod, 240*time.Second, "go", "build", "./p"); rc != 0 || to {
-				first = "after run 1: " + firstLines(out, 4)
+				first = fmt.Sprintf("after run %d: %s", k+1, firstLines(out, 4))
 			}
 		}
 		if g.Status == "crash" || g.Status == "timeout" || g.Status == "error" {
@@ -338,6 +350,33 @@ func (prop) Run(raw json.RawMessage, scratch string) core.Result {
 	return res
 }
 
+// aliasSpelling: a slice or map field declared through an alias is copied with make(<the alias name>, ...) - or, as
+// well, with make(<the type literal the alias denotes>, ...): the two are identical types.  The model sees the field with
+// its alias resolved (Input.resolve) and expects the literal; the observed spelling is normalised to it when it is the
+// declared alias name.  Any other spelling stays as observed and equals no model statement.
+func (in *Input) aliasSpelling(ms []Method) {
+	for mi := range ms {
+		m := &ms[mi]
+		d := in.decl(m.T)
+		if m.Op != "ptrinto" || d == nil {
+			continue
+		}
+		for si := range m.Body {
+			st := &m.Body[si]
+			if st.Op != "slice" && st.Op != "map" {
+				continue
+			}
+			for _, f := range d.Fields {
+				if f.Name == st.F && f.K == KAlias && st.Ty == nospace(f.A) {
+					if r := in.resolve(f); r.K == KSlice || r.K == KMap {
+						st.Ty = nospace(fieldTypeSrc(r, in.ShadowPkg))
+					}
+				}
+			}
+		}
+	}
+}
+
 func diffSummary(rs []GenRun) string {
 	var parts []string
 	for k, r := range rs {
@@ -362,15 +401,26 @@ func (in *Input) knownClass() string {
 	if c := in.shadowClass(); c != "" {
 		return c
 	}
+	if in.hasBlankField() {
+		return "blank_field"
+	}
 	for _, d := range in.Decls {
 		for _, f := range d.Fields {
-			if f.K == KError {
+			if r := in.resolve(f); f.K == KAlias && (r.K == KSlice || r.K == KMap) {
+				return "alias_container_field_shared"
+			}
+		}
+	}
+	for _, d := range in.Decls {
+		for _, f := range d.Fields {
+			if in.resolve(f).K == KError {
 				return "error_field"
 			}
 		}
 	}
 	for _, d := range in.Decls {
 		for _, f := range d.Fields {
+			f = in.resolve(f)
 			if f.K != KNamed {
 				continue
 			}
@@ -413,6 +463,7 @@ func (in *Input) typeArgWithContainers() bool {
 			return true
 		case DStruct:
 			for _, f := range d.Fields {
+				f = in.resolve(f)
 				switch f.K {
 				case KSlice, KMap, KSliceOf, KSliceSl:
 					return true
@@ -432,6 +483,7 @@ func (in *Input) typeArgWithContainers() bool {
 	}
 	for _, d := range in.Decls {
 		for _, f := range d.Fields {
+			f = in.resolve(f)
 			if f.K != KNamed {
 				continue
 			}
@@ -476,6 +528,9 @@ func tagsOf(in *Input, obs *Observed) ([]string, bool) {
 	}
 	depth := in.depth()
 	set[fmt.Sprintf("depth=%d", depth)] = true
+	if in.Base != "" {
+		set["output_base_not_zz_generated"] = true
+	}
 	nontrivial := false
 	for i := range in.Decls {
 		d := &in.Decls[i]
@@ -488,6 +543,18 @@ func tagsOf(in *Input, obs *Observed) ([]string, bool) {
 		}
 		for _, f := range d.Fields {
 			set["field_"+f.K] = true
+			if f.K == KAlias {
+				where := "same_package"
+				if strings.HasPrefix(f.A, "ext.") {
+					where = "foreign"
+				}
+				f = in.resolve(f)
+				set["field_alias_"+where+"_of_"+f.K] = true
+			}
+			set["fieldname_"+nameShapeOf(f.Name)] = true
+			if !in.enabled(d) {
+				set["fieldname_"+nameShapeOf(f.Name)+"_in_untagged_type"] = true
+			}
 			if f.K == KNamed {
 				if t := in.decl(f.A); t != nil {
 					set["field_named_"+t.Kind] = true
@@ -532,7 +599,7 @@ func (in *Input) depth() int {
 		}
 		best := 0
 		for _, f := range d.Fields {
-			if f.K == KNamed {
+			if f = in.resolve(f); f.K == KNamed {
 				if x := rec(f.A, fuel-1); x > best {
 					best = x
 				}
